@@ -27,8 +27,8 @@ RULE = (
 )
 BOUNDS = {"rows": "12-400", "steps": "1-12"}
 ASSUMPTIONS = ["no side-effect claim is made for copy=False (the package documents in-place work)"]
-BUDGET = {"quick": 500, "thorough": 5000}
-DEADLINE_S = {"quick": 220, "thorough": 2700}
+BUDGET = {"quick": 500, "thorough": 15000}
+DEADLINE_S = {"quick": 220, "thorough": 3300}
 CLASSES = CARVERS + PIPELINES + STEPS + ("BinaryCarver", "ContinuousCarver", "Discretizer")
 FRAMES = ["train", "subset", "perm", "reindex", "dev", "cross", "cross_subset"]
 
